@@ -153,6 +153,10 @@ pub fn run_item(prop: &str, tier: &str, idx: usize, only: Option<&Value>) -> MRe
             cases.extend(lookup_ops(p, &flagsets, &[0, RESOLVE_NO_SYMLINKS], sc.thorough));
         }
         if prop == "C04" && !is_chain {
+            // byte strings with an interior NUL (only expressible through the Rust API): whatever the outcome, it must not depend on the backend
+            for p in ["a\0zzz/x", "a\0", "\0", "a/\0b", "x\0/../a"] {
+                cases.extend(lookup_ops(p, &flagsets[..2.min(flagsets.len())], &[0], false));
+            }
             // the same lookups through a Root that wraps a caller-supplied O_RDONLY descriptor, for the paths that end on the root
             for p in ["..", "../..", "a/..", ".", "/", "b/../..", "a/../../b"] {
                 for mut c in lookup_ops(p, &flagsets[..2.min(flagsets.len())], &[0], false) { c.op.root = Some(format!("rdonly:{}", ROOT_IN)); cases.push(c); }
@@ -178,11 +182,12 @@ pub fn run_item(prop: &str, tier: &str, idx: usize, only: Option<&Value>) -> MRe
         }
         for (i, c) in cases.iter().enumerate() {
             let path = c.op.path.as_deref().unwrap();
-            let mut want = kernel_oracle(rootfd.as_raw_fd(), c);
+            let has_nul = path.contains('\0');
+            let mut want = if has_nul { Want::Err(-999) } else { kernel_oracle(rootfd.as_raw_fd(), c) };
             if matches!(want, Want::Err(libc::EAGAIN)) { return mach(format!("kernel oracle keeps answering EAGAIN on a static tree: {} {}", tree.text(), c.op.brief())); }
             // reference model bound to the kernel (O_PATH lookups only; open flags are the kernel's business)
             let mut st = WalkStats { steps: 0, follows: 0 };
-            if c.op.name != "open_subpath" {
+            if c.op.name != "open_subpath" && !has_nul {
                 let nsl = c.op.rflags.unwrap_or(0) & RESOLVE_NO_SYMLINKS != 0;
                 let rm = model.resolve(path, c.nofollow, nsl, &mut st);
                 let rm_id: Result<Option<(u64, u64)>, i32> = rm.clone().map(|p| snap.get(&p).map(|n| (n.dev, n.ino)));
@@ -193,6 +198,21 @@ pub fn run_item(prop: &str, tier: &str, idx: usize, only: Option<&Value>) -> MRe
                     (Ok(Some(id)), Want::Err(e)) if c.op.name == "readlink" => { let _ = id; *e == libc::ENOENT || *e == libc::EINVAL } // readlinkat on a non-link
                     _ => false,
                 };
+                // under heavy machine load a restarted kernel walk can report ELOOP for chains just below the limit: ask again
+                let mut agree = agree;
+                if !agree {
+                    for _ in 0..6 {
+                        want = kernel_oracle(rootfd.as_raw_fd(), c);
+                        let a2 = match (&rm_id, &want) {
+                            (Err(a), Want::Err(b)) => a == b,
+                            (Ok(Some((d, i))), Want::Obj { dev, ino, .. }) => d == dev && i == ino,
+                            (Ok(Some(_)), Want::Text(_)) => true,
+                            (Ok(Some(_)), Want::Err(e)) if c.op.name == "readlink" => *e == libc::ENOENT || *e == libc::EINVAL,
+                            _ => false,
+                        };
+                        if a2 { agree = true; break; }
+                    }
+                }
                 if !agree {
                     return mach(format!("MODEL MISMATCH (reference model vs kernel): tree [{}] {} rm={:?} kernel={:?}", tree.text(), c.op.brief(), rm, want));
                 }
@@ -208,7 +228,7 @@ pub fn run_item(prop: &str, tier: &str, idx: usize, only: Option<&Value>) -> MRe
                 let mut got = got_of(&obs_list[i]);
                 // transient kernel EAGAIN / SafetyViolation caused by other shards' mounts and renames: re-run the single case
                 let mut tries = 0;
-                while got != want && is_transient(&got) && tries < 50 {
+                while !has_nul && got != want && is_transient(&got) && tries < 50 {
                     obs_list[i] = wk.one(c.op.clone())?;
                     got = got_of(&obs_list[i]);
                     tries += 1;
@@ -246,8 +266,19 @@ pub fn run_item(prop: &str, tier: &str, idx: usize, only: Option<&Value>) -> MRe
                 }
             }
             if prop == "C04" && !undecided {
-                let (gk, ge) = (got_of(&ko[i]), got_of(&eo[i]));
-                let same_kind = ko[i].kind == eo[i].kind;
+                let (mut gk, mut ge) = (got_of(&ko[i]), got_of(&eo[i]));
+                let mut same_kind = ko[i].kind == eo[i].kind;
+                // a divergence must be stable: transient kernel answers under machine load (EAGAIN storms, ELOOP from restarted walks
+                // just below the link limit) are excluded by running the single case again on both backends
+                let mut tries = 0;
+                while (gk != ge || !same_kind) && tries < 4 {
+                    tries += 1;
+                    ko[i] = k.one(c.op.clone())?;
+                    eo[i] = e.one(c.op.clone())?;
+                    let (k2, e2) = (got_of(&ko[i]), got_of(&eo[i]));
+                    if k2 == e2 && ko[i].kind == eo[i].kind { gk = k2; ge = e2; same_kind = true; break; }
+                    if k2 != gk || e2 != ge { gk = k2; ge = e2; same_kind = ko[i].kind == eo[i].kind; tries = tries.min(2); res.count("unstable_answers", 1); }
+                }
                 if gk != ge || !same_kind {
                     let key = format!("lookup:{}{}:{}:K={}/{} E={}/{}", c.op.name, if c.op.root.as_deref().map(|r| r.starts_with("rdonly:")).unwrap_or(false) { "[rdonly-root]" } else { "" }, path_class(path), short(&gk), ko[i].kind.clone().unwrap_or_default(), short(&ge), eo[i].kind.clone().unwrap_or_default());
                     res.violate(key, format!("tree [{}] {}: kernel backend gives {} ({}), emulated backend gives {} ({})", tree.text(), c.op.brief(),
